@@ -45,6 +45,7 @@ class BlockNormalizer(Visitor):
         new_circuit.constants.update(circuit.constants)
         new_circuit.macros.update(circuit.macros)
         new_circuit.registers.update(circuit.registers)
+        new_circuit.usepulses.extend(circuit.usepulses)
         new_circuit.body.statements.extend(self.visit(circuit.body).statements)
         return new_circuit
 
@@ -69,7 +70,11 @@ class BlockNormalizer(Visitor):
                 new_statements.append(block)
         else:
             new_statements = list(self.iter_unroll_blocks(visited_statements))
-        new_block = BlockStatement(statements=new_statements)
+        new_block = BlockStatement(
+            statements=new_statements,
+            subcircuit=obj.subcircuit,
+            iterations=obj.iterations,
+        )
         return new_block
 
     def iter_chunk_blocks(self, statements):
@@ -109,9 +114,9 @@ class UnrollIterator(Visitor):
         yield obj
 
     def visit_BlockStatement(self, obj):
-        if obj.parallel:
+        if obj.parallel or obj.subcircuit:
             # This is ok in iter_unroll_blocks but would be an error
-            # in iter_chunk_blocks.
+            # in iter_chunk_blocks. A subcircuit block is kept as a unit.
             yield obj
         else:
             for stmt in obj.statements:
